@@ -6,6 +6,8 @@ pub mod c03;
 pub mod c04;
 pub mod c05;
 pub mod c08;
+pub mod c09;
+pub mod c10;
 pub mod c12;
 pub mod c13;
 pub mod c14;
@@ -21,6 +23,8 @@ pub fn property(id: &str) -> Option<Property> {
         "C04" => Some(c04::property()),
         "C05" => Some(c05::property()),
         "C08" => Some(c08::property()),
+        "C09" => Some(c09::property()),
+        "C10" => Some(c10::property()),
         "C12" => Some(c12::property()),
         "C13" => Some(c13::property()),
         "C14" => Some(c14::property()),
